@@ -60,9 +60,12 @@ def main():
     tier = 'thorough' if '--thorough' in sys.argv else 'quick'
     paths = args or sorted(glob.glob(os.path.join(HERE, 'mutants', '*.patch')) + glob.glob(os.path.join(HERE, 'seeded', '*', 'patch.diff')))
     bad = 0
+    results = {}
     with ThreadPoolExecutor(max_workers=int(os.environ.get('VERIF_JOBS', '8'))) as ex:
         for path, verdict, detail in ex.map(lambda p: one(p, tier), paths):
             print(f'{verdict:22s} {os.path.relpath(path, HERE)}')
+            results[os.path.relpath(path, HERE)] = {'verdict': verdict, 'tier': tier,
+                                                    'checks': [{'property': d[0], 'rc': d[1], 'violation_lines': d[2], 'first': d[3]} for d in detail] if isinstance(detail, list) else str(detail)}
             if not verdict.startswith('CAUGHT tests-pass'):
                 bad += 1
                 print('    ', detail)
@@ -70,6 +73,10 @@ def main():
                 print('    ', detail)
     for d in glob.glob(os.path.join(HERE, '.work', 'noevidence-*')):
         shutil.rmtree(d, ignore_errors=True)
+    if not args:
+        # full run: keep the table that DESIGN.md section 9 is generated from (tools/mkcatchtable.py)
+        with open(os.path.join(HERE, 'selftest_results.json'), 'w') as f:
+            json.dump(results, f, indent=1, sort_keys=True)
     print(f'{len(paths) - bad}/{len(paths)} deliberate breaks caught with the repository tests still passing')
     sys.exit(1 if bad else 0)
 
